@@ -35,6 +35,11 @@ scales its single operand in place) was missed before and is caught now; two mor
 seed 0 here and in C20, both missed by the generators before:
   10 setops.mass_weightedIntersection scales a single operand in place (reached only by a one-id search_phrase)
   11 baseindex.search_glob scales the map in place when the glob matches a single word
+K1 / B overridden on a subclass / sub-subclass / instance / instance of a subclass (30% of the Okapi corpora, always
+on the pure-Python loop: impl `python` or `textpy` = TextIndex over it; cfg k1 / cfg b go to the model as bit
+patterns, Lean `Score.Bm25`): seeded C20_E's class; mutations 12 (`B = OkapiIndex.B` in the Python loop) and 13
+(`tfmax = 1.0 + type(self).K1` in query_weight) give VIOLATION on quick seed 0.  The compiled loop ignores the
+attributes (okascore.c #defines) - see C20's docstring; that combination is not generated.
 """
 import importlib.util
 import math
@@ -51,7 +56,8 @@ AUDIT_IMPORTS = ["HypatiaProofs.Properties.C08"]
 THEOREMS = ["Hyp.C08." + t for t in (
     "c08_table_of_history", "c08_total_length_counter", "c08_search", "c08_search_no_wids", "c08_glob",
     "c08_phrase", "c08_phrase_is_sublist", "c08_query_weight", "c08_history_independent",
-    "c08_okapi_formula", "c08_cosine_formula", "c08_score_loop")]
+    "c08_okapi_formula", "c08_okapi_formula_default", "c08_cosine_formula", "c08_score_loop",
+    "c08_score_loop_default")]
 CASES = {"quick": 1200, "thorough": 40000}
 BUDGET_S = {"quick": 45, "thorough": 780}
 BATCH = 40
@@ -248,8 +254,12 @@ def tree_tokens(tree):
 
 def gen(rng, tier, idx):
     kind = "okapi" if rng.random() < 0.6 else "cosine"
+    tuned = []
     if kind == "okapi":
         impl = rng.choice(["c", "c", "python", "python", "text"])
+        tuned = gen_tuning(rng, 0.3)
+        if tuned:
+            impl = rng.choice(["python", "python", "textpy"])
     else:
         impl = rng.choice(["plain", "plain", "text"])
     fam = rng.choice([32, 64])
@@ -299,7 +309,7 @@ def gen(rng, tier, idx):
                 cmds.append(["index", d] + ws)
                 table[d] = ws
             elif r < 0.75:
-                d = rng.choice(known) if (impl == "text" or rng.random() < 0.9) else rng.choice(ids)
+                d = rng.choice(known) if (impl in ("text", "textpy") or rng.random() < 0.9) else rng.choice(ids)
                 ws = gen_doc(rng, vocab, False)
                 if rng.random() < 0.15:
                     ws = list(table.get(d, ws))        # identical re-index
@@ -386,7 +396,7 @@ def gen(rng, tier, idx):
         for qi in range(nq):
             r = rng.random()
             if qi == 0 and r < 0.8:
-                if impl == "text" and r < 0.3:
+                if impl in ("text", "textpy") and r < 0.3:
                     cmds.append(["apply", "a", new_term([hot_word()])])
                 else:
                     cmds.append(["search", new_term([hot_word()])])
@@ -403,7 +413,7 @@ def gen(rng, tier, idx):
                 cmds.append(["qw"] + [new_term(atom_wids()) for _ in range(rng.randrange(0, 4))])
             elif r < 0.76:
                 cmds.append(["count"])
-            elif impl == "text":
+            elif impl in ("text", "textpy"):
                 t = gen_tree(0)
                 cmds.append(["apply"] + tree_tokens(t))
             else:
@@ -423,7 +433,7 @@ def gen(rng, tier, idx):
     def one_word_read(w):
         """one read whose only operand is word w: search / one-word phrase / glob with a single match / apply"""
         r = rng.random()
-        if impl == "text" and r < 0.35:
+        if impl in ("text", "textpy") and r < 0.35:
             r2 = rng.random()
             if r2 < 0.6:
                 return [["apply", "a", new_term([w])]]
@@ -509,7 +519,61 @@ def gen(rng, tier, idx):
     cfg = [["cfg", "kind", kind], ["cfg", "impl", impl], ["cfg", "fam", fam]]
     if cutoff:
         cfg.append(["cfg", "cutoff", cutoff])
+    cfg += tuned
     return {"session": "score", "cfg": cfg, "cmds": cmds}
+
+
+K1S = [0.5, 2.0, 2.0, 0.5, 3.75, 1.2]
+BS = [0.0, 0.5, 1.0, 0.75, 0.25]
+OVERRIDES = ["subclass", "instance", "subsubclass", "instance-of-subclass"]
+
+
+def gen_tuning(rng, share):
+    """K1 / B, the documented BM25 free parameters of OkapiIndex, overridden on a subclass or on the instance: cfg
+    lines for the model (bit patterns) - only ever used with the pure-Python loop, the compiled one keeps the
+    constants of okascore.c"""
+    if rng.random() >= share:
+        return []
+    k1, b = rng.choice(K1S), rng.choice(BS)
+    if k1 == 1.2 and b == 0.75:
+        b = 0.5
+    which = rng.choice(["both", "both", "k1", "b"])
+    if which == "k1" and k1 == 1.2:
+        k1 = 2.0
+    if which == "b" and b == 0.75:
+        b = 1.0
+    out = [["cfg", "override", rng.choice(OVERRIDES)]]
+    if which in ("both", "k1"):
+        out.append(["cfg", "k1", bits(k1)])
+    if which in ("both", "b"):
+        out.append(["cfg", "b", bits(b)])
+    return out
+
+
+def tuned_index(cfg, cls, lex, fam):
+    """the index object for a case: `cls(lex, family=fam)`, with K1 / B overridden as the case says"""
+    how = cfg.get("override")
+    attrs = {}
+    if "k1" in cfg:
+        attrs["K1"] = unbits(cfg["k1"])
+    if "b" in cfg:
+        attrs["B"] = unbits(cfg["b"])
+    if not how or not attrs:
+        return cls(lex, family=fam)
+    if how == "subclass":
+        return type("TunedOkapi", (cls,), dict(attrs))(lex, family=fam)
+    if how == "subsubclass":
+        mid = type("TunedOkapi", (cls,), dict(attrs))
+        return type("Application", (mid,), {})(lex, family=fam)
+    if how == "instance-of-subclass":
+        # the subclass says something else; the instance has the last word
+        mid = type("TunedOkapi", (cls,), {k: v + 0.25 if k == "K1" else 0.125 for k, v in attrs.items()})
+        inner = mid(lex, family=fam)
+    else:
+        inner = cls(lex, family=fam)
+    for k, v in attrs.items():
+        setattr(inner, k, v)
+    return inner
 
 
 # ----------------------------------------------------------------------------
@@ -570,13 +634,15 @@ def impl_run(hyp, case):
     lex = StubLexicon()
     if cfg["kind"] == "cosine":
         inner = CosineIndex(lex, family=fam)
-    elif cfg["impl"] == "python":
-        inner = _PURE.OkapiIndex(lex, family=fam)
+    elif cfg["impl"] in ("python", "textpy"):
+        inner = tuned_index(cfg, _PURE.OkapiIndex, lex, fam)
     else:
+        if "k1" in cfg or "b" in cfg:
+            raise core.Infra("K1 / B overrides are only compared on the pure-Python loop")
         inner = okapiindex.OkapiIndex(lex, family=fam)
     if cfg.get("cutoff"):
         inner.DICT_CUTOFF = int(cfg["cutoff"])      # instance attribute: survives reset(), read by _add_wordinfo
-    ti = TextIndex("text", lexicon=lex, index=inner, family=fam) if cfg["impl"] == "text" else None
+    ti = TextIndex("text", lexicon=lex, index=inner, family=fam) if cfg["impl"] in ("text", "textpy") else None
     outs = []
     for c in case["cmds"]:
         op = c[0]
@@ -591,6 +657,10 @@ def impl_run(hyp, case):
             elif op == "reindex":
                 text = " ".join(map(str, c[2:]))
                 if ti is not None:
+                    if c[1] not in inner._docweight:
+                        # TextIndex.reindex_doc IS index_doc: never generated for an unknown id; a shrinking step
+                        # that drops the earlier index command must not turn the case into a different one
+                        raise core.Infra("reindex of an unknown docid through TextIndex is not a generated case")
                     ti.reindex_doc(c[1], Doc(text))
                 else:
                     inner.reindex_doc(c[1], text)
@@ -706,6 +776,11 @@ def nontrivial(case, outs):
 def features(case, outs):
     cfg = cfgdict(case)
     f = ["kind:" + cfg["kind"], "impl:%s/%s" % (cfg["kind"], cfg["impl"]), "fam:%s" % cfg["fam"]]
+    if cfg.get("override"):
+        f.append("tuned:" + cfg["override"])
+        f.append("tuned:K1=%s,B=%s" % (unbits(cfg["k1"]) if "k1" in cfg else "default",
+                                       unbits(cfg["b"]) if "b" in cfg else "default"))
+        f.append("tuned:any")
     vis = False
     scored = False
     maxtf = 0
@@ -766,6 +841,11 @@ def features(case, outs):
     if scored:
         f.append("corpus:scored")
         f.append("corpus:nontrivial(tf>1,len!=mean)" if vis else "corpus:k1-b-invisible")
+        if cfg.get("override") and vis:
+            f.append("tuned:scored-with-tf>1,len!=mean")
+    if cfg.get("override") and any(c[0] == "qw" and len(c) > 1 and o.startswith("f:") and float(o[2:]) > 0
+                                   for c, o in zip(case["cmds"], outs)):
+        f.append("tuned:query_weight>0")
     if maxtf >= 100:
         f.append("tf>=100")
     if maxlen >= 1000:
@@ -799,7 +879,13 @@ RULE = ("a corpus = a history of 2-20 index_doc (new and existing ids), direct r
         "single match / apply of an atom, glob or word+stop-word phrase) on the most frequent word is issued, "
         "followed by 1-2 other reads, then again (measured quick seed 0, of 1200 corpora: same one-word read repeated "
         "on an unchanged corpus 807 on a dict posting + 226 on a stored IFBTree posting, of these 78 cosine; a scored "
-        "query on a word beyond the cut-off 326, beyond 10 documents 52). A corpus is non-trivial if a scored "
+        "query on a word beyond the cut-off 326, beyond 10 documents 52). 30% of the Okapi corpora run on an index whose K1 "
+        "and / or B (the documented BM25 free parameters; K1 from {0.5, 2.0, 3.75, 1.2}, B from {0, 0.25, 0.5, 0.75, "
+        "1}) is overridden on a subclass, a sub-subclass, the instance, or the instance of a subclass saying "
+        "something else - always with the pure-Python loop (impl python, or textpy = TextIndex over it), cfg k1 / "
+        "cfg b to the model (measured quick seed 0: 235 of 711 Okapi corpora, subclass 57 / sub-subclass 53 / "
+        "instance 59 / instance-of-subclass 66; 232 of them scored a document with tf > 1 and len != mean, 99 a "
+        "positive query_weight). A corpus is non-trivial if a scored "
         "document has tf > 1 for a query word and len != mean")
 LEVEL_TEXT = ("Lean 4 theorems over the reals: for every document table and every list of query word ids the "
               "modelled search / search_glob / search_phrase of OkapiIndex and CosineIndex (per-term maps, "
